@@ -42,6 +42,9 @@ static std::vector<double> gen_axis(Rng& rng, int kind, bool& special)
 		case 1:
 		case 2: {
 			double tilt = (kind % 8 == 1) ? rng.loguni(1e-13, 1e-11) : rng.loguni(1e-9, 1e-6);
+			// transverse components whose squares underflow, down to subnormal numbers (seeded change C16-r6m3: sin(theta)/hypot overflowed)
+			if(kind % 8 == 1 && rng.coin(0.3))
+				tilt = rng.coin() ? rng.loguni(1e-323, 1e-300) : rng.loguni(1e-300, 1e-150);
 			double ang	= rng.uni(0, 2 * M_PI);
 			ld sz		= rng.coin() ? 1 : -1;
 			d			= {(ld) tilt * cosl(ang), (ld) tilt * sinl(ang), sz};
@@ -175,6 +178,15 @@ static void case_spherical_axis(Rng& rng, uint64_t index)
 	phi = rng.coin(0.15) ? 0.0 : rng.uni(0, 2 * M_PI);
 	if(!(phi < 2 * M_PI))
 		phi = 0;
+	// witnesses of defect D36 (squares of the transverse axis components underflow: norm r(1+1.3e-6) before the fix), and its subnormal neighbours
+	if(index < 4)
+	{
+		static const double W[4][3] = {{1.5795784385789043e-158, 2.002465914548687e-158, -39.467653416498443}, {1.2183466264839495e-157, 1.4942049358646938e-157, -1.0}, {1e-310, 0.0, -1.0}, {3e-162, -4e-162, -2.0}};
+		ax	  = {W[index][0], W[index][1], W[index][2]};
+		r	  = 1.0;
+		theta = 1.1, phi = 0.7;
+		special = true;
+	}
 	set_params(J().d("r", r).d("theta", theta).d("phi", phi).vec("axis", ax));
 	hash_param(r), hash_param(theta), hash_param(phi), hash_param(ax[0]), hash_param(ax[1]), hash_param(ax[2]);
 	if(special)
